@@ -24,7 +24,7 @@ Lemma bridge_rawFrameBody_AppendTo body dst :
 Proof. reflexivity. Qed.
 
 (** ** correspondence of values *)
-Definition dec0 : option Gen2.hsms.decodeState := Some (Gen2.hsms.mk_decodeState ErrNil).
+Definition dec0 : option Gen2.hsms.decodeState := Some (Gen2.hsms.mk_decodeState Gen2.secs2.Item_nil ErrNil).
 
 Definition msg_of (dec : option Gen2.hsms.decodeState) (m : msg) : Gen2.hsms.Message :=
   match m with
